@@ -29,9 +29,21 @@ def run(ctx):
     ctx.trust('np.digitize classes as in C10; ndarray.reshape is C-ordered (last axis fastest); coo_matrix sums '
               'duplicates; a[1:-1] drops the first and last index')
     rule_fold(ctx)
+    # calling the routine twice on the same arrays (full, then 'sum', then 'mean') must give consistent outputs:
+    # nothing may be computed in place on the caller's arrays
+    from ..effects import MutationAnalysis
+    hf = ctx.P.func(HOLO)
+    mp = MutationAnalysis(ctx.P).mutated_params(hf)
+    for formal in ('infr', 'infr2', 'inam2'):
+        cst = 'holospectrum does not modify %s' % formal
+        if formal in mp:
+            ctx.violation('C11.R3', hf, cst, 'the caller\'s %s is changed in place (%s): a second call on the same arrays '
+                          'accumulates different values' % (formal, mp[formal][0].what), node=mp[formal][0].node)
+        else:
+            ctx.passed('C11.R3', hf, cst)
     from . import c19
-    c19.rule_shape_classes(ctx, 'C11.R4', names=('ensure_2d',))
-    c19.rule_layout_only(ctx, 'C11.R4', names=('ensure_2d',))
+    ctx.rule(c19.rule_shape_classes, 'C11.R4', names=('ensure_2d',))
+    ctx.rule(c19.rule_layout_only, 'C11.R4', names=('ensure_2d',))
     l1.rule_lib_attrs(ctx, 'L1', [HOLO], 'holospectrum')
 
 
@@ -40,6 +52,9 @@ def _peel(v):
     if v[0] == 'call' and v[1] in ('numpy.array', 'numpy.asarray') and v[2]:
         v = v[2][0]
     if v[0] != 'sub':
+        # no trim: out-of-range samples must then be filtered before the accumulation (checked class by class)
+        if v[0] in ('meth', 'bin'):
+            return v, None
         return None
     return v[1], v[2]
 
@@ -139,7 +154,10 @@ def rule_fold(ctx):
                             problem = 'unfold dimensions are %s' % dvals
                             break
                         R, Cc = sp_dims
-                        tr = list(trim[1]) if trim[0] == 'tuple' else [trim]
+                        if trim is None:
+                            tr = [('slice', C(None), C(None), C(None))] * len(dvals)
+                        else:
+                            tr = list(trim[1]) if trim[0] == 'tuple' else [trim]
                         if len(tr) != len(dvals):
                             problem = 'trim index has %d axes for %d dimensions' % (len(tr), len(dvals))
                             break
@@ -169,13 +187,27 @@ def rule_fold(ctx):
                                               {S('infr'): pa, S('infr2'): pb, S('inam2'): 'amp'})
                                 F = el.ev(cols)
                                 d = el.ev(data)
-                                if not (0 <= F < width):
-                                    problem = 'folded index %d outside the sparse width %d for classes (%s, %s)' % (
-                                        F, width, pa, pb)
-                                    break
-                                bq, aq = divmod(F, Cc)
-                                kept = (lohi[0][0] <= bq < R + lohi[0][1]) and (lohi[1][0] <= aq < Cc + lohi[1][1])
-                                cell = (bq - lohi[0][0], aq - lohi[1][0]) if kept else None
+                                filtered = False
+                                masked = lambda z: isinstance(z, tuple) and z and z[0] in ('kept', 'dropped')   # noqa: E731
+                                if masked(F):
+                                    # coordinates selected by a mask before the accumulation
+                                    if masked(d) and (d[0] == 'kept') != (F[0] == 'kept'):
+                                        problem = 'values and column indices are filtered by different masks'
+                                        break
+                                    filtered = F[0] != 'kept'
+                                    F = F[1] if F[0] == 'kept' else None
+                                if masked(d):
+                                    d = d[1] if d[0] == 'kept' else (('pow', 'amp', 2) if mode == 'energy' else 'amp')
+                                if filtered:
+                                    cell = None
+                                else:
+                                    if not (0 <= F < width):
+                                        problem = 'folded index %d outside the sparse width %d for classes (%s, %s)' % (
+                                            F, width, pa, pb)
+                                        break
+                                    bq, aq = divmod(F, Cc)
+                                    kept = (lohi[0][0] <= bq < R + lohi[0][1]) and (lohi[1][0] <= aq < Cc + lohi[1][1])
+                                    cell = (bq - lohi[0][0], aq - lohi[1][0]) if kept else None
                                 ka, kb = spec_bin(pa, E1), spec_bin(pb, E2)
                                 want = (kb, ka) if (ka is not None and kb is not None) else None
                                 if cell != want:
